@@ -1100,6 +1100,28 @@ def _run(ctx, exe, corpus, methods, notif_methods, docdir, table_text):
                                         "request:%s:valid" % meth, params_valid=(True if meth in PARAM_BUILDERS or meth == "shutdown" else None)))
     grid.append(Msg('{"jsonrpc":"2.0","method":"exit"}', "notification:exit", trivial=True))
     sessions.append(grid)
+    # fixed sessions whose answers point into ANOTHER file (an imported file on disk, the prelude): the open document is full
+    # of multi-byte characters, so an offset of the other file is rarely a character boundary of this one
+    for k in range(3):
+        gen = Gen(rng, corpus, methods, notif_methods, docdir)
+        libname = "lib28_%d_%d.gdn" % (os.getpid(), k)
+        filler = "".join(rng.choice(["é", "€", "語", "\U0001F600"]) for _ in range(rng.randrange(200, 2000)))
+        lib_text = "// " + "x" * rng.randrange(0, 3000) + "\npublic fun helper28(): Int { 1 }\npublic fun other28(n: Int): Int { n }\n"
+        with open(os.path.join(docdir, libname), "w") as f:
+            f.write(lib_text)
+        doc = 'import "./%s"\n// %s\nhelper28()\nprintln(string_repr(other28(2)))\nlet v28 = max(1, 2)\n// %s\n' % (libname, filler, filler)
+        cross = [gen.did_open("cross%d.gdn" % k, doc)]
+        u = jstr(gen.uri_for("cross%d.gdn" % k))
+        for meth in ("textDocument/definition", "textDocument/hover", "textDocument/references", "textDocument/documentHighlight"):
+            if meth not in methods:
+                continue
+            for ln, ch in ((2, 1), (2, 8), (3, 1), (3, 9), (3, 23), (4, 11), (0, 9)):
+                pos = '{"line":%d,"character":%d}' % (ln, ch)
+                extra = ',"context":{"includeDeclaration":true}' if meth.endswith("references") else ""
+                cross.append(gen.request(meth, len(cross), '{"textDocument":{"uri":%s},"position":%s%s}' % (u, pos, extra),
+                                         "request:%s:valid" % meth, params_valid=True))
+        cross.append(Msg('{"jsonrpc":"2.0","method":"exit"}', "notification:exit", trivial=True))
+        sessions.append(cross)
 
     ctx.log("driving %d sessions (%d messages) through `garden lsp`" % (len(sessions), sum(len(s) for s in sessions)))
     with concurrent.futures.ThreadPoolExecutor(common.NCPU) as ex:
